@@ -139,8 +139,8 @@ def gen_histogram(r, k, T):
         sig = ["stepZeroData"]
         M["szd"] = True
     B.append("}")
-    return {"fam": "histogram", "tags": tags, "sigtags": sig, "natoms": nv, "config": cfg + B, "it0": r.choice([0, 0, 7]),
-            "pos": walk(r, T, nv, lo=-4.5, hi=4.5, bits=3), "model": M}
+    return {"fam": "histogram", "tags": tags, "sigtags": sig, "collapse": "all" if sig else None, "natoms": nv,
+            "config": cfg + B, "it0": r.choice([0, 0, 7]), "pos": walk(r, T, nv, lo=-4.5, hi=4.5, bits=3), "model": M}
 
 
 # ------------------------------------------------------------------------------------------------ extended Lagrangian
@@ -232,7 +232,7 @@ def gen_alb(r, k, T):
     cfg = cv_block(0, width=1.0)
     B = ["alb {", "  name a", "  colvars v0", "  centers %r" % V.dyadic(r, 0.5, 2, bits=2),
          "  updateFrequency %d" % r.choice([4, 6, 8]), "  forceRange 2.0", "}"]
-    return {"fam": "alb", "tags": ["alb"], "natoms": 1, "setup": ["temperature 300.0"], "config": cfg + B, "it0": 0,
+    return {"fam": "alb", "tags": ["alb"], "sigtags": [], "collapse": "all", "natoms": 1, "setup": ["temperature 300.0"], "config": cfg + B, "it0": 0,
             "pos": walk(r, T, 1, lo=0.5, hi=4, bits=3)}
 
 
@@ -296,6 +296,7 @@ def gen_meta(r, k, T):
     B = ["metadynamics {", "  name m", "  colvars " + " ".join("v%d" % i for i in range(nv)),
          "  hillWeight %r" % r.choice([0.125, 0.5, 1.0]), "  newHillFrequency %d" % freq,
          "  hillWidth %r" % r.choice([1.0, 2.0, 2.5])]
+    pending = False
     if not use_grids:
         B.append("  useGrids off")
     else:
@@ -303,7 +304,10 @@ def gen_meta(r, k, T):
             g = r.choice([1, 2, 4, 6])
             B.append("  gridsUpdateFrequency %d" % g)
             tags.append("gfreq=%s" % ("freq" if g == freq else "other"))
-    if r.random() < 0.4:
+            # hills deposited on a step that is not a multiple of gridsUpdateFrequency wait, unprojected, for the
+            # next such step: writing the state projects them at once
+            pending = (freq % g) != 0
+    if use_grids and r.random() < 0.4:      # keepHills is only parsed with grids
         B.append("  keepHills on")
         tags.append("keepHills")
     if r.random() < 0.3:
@@ -318,7 +322,8 @@ def gen_meta(r, k, T):
         for t in range(T):
             if r.random() < p_out:
                 pos[t] = [z - 6.0 for z in pos[t]]
-    return {"fam": "meta", "tags": tags, "natoms": nv, "setup": ["temperature 300.0"], "config": cfg + B,
+    return {"fam": "meta", "tags": tags, "sigtags": ["pending-hills"] if pending else [],
+            "collapse": "obs" if pending else None, "natoms": nv, "setup": ["temperature 300.0"], "config": cfg + B,
             "it0": r.choice([0, 0, 5]), "pos": pos}
 
 
@@ -341,7 +346,7 @@ def gen_opes(r, k, T):
         B.append("  calcWork on")
         tags.append("calcWork")
     B.append("}")
-    return {"fam": "opes", "tags": tags, "natoms": nv, "setup": ["temperature 300.0", "restartfreq %d" % rf],
+    return {"fam": "opes", "tags": tags, "sigtags": [], "collapse": "all", "natoms": nv, "setup": ["temperature 300.0", "restartfreq %d" % rf],
             "config": cfg + B, "it0": 0, "pos": walk(r, T, nv, lo=-3.0, hi=3.0, bits=3), "restartfreq": rf,
             "needs_prefix": True}
 
